@@ -339,6 +339,58 @@ def limit_load_cases(L):
     return gen
 
 
+def tag_reset_cases(ctx):
+    """cbor_tag_set_item on a tag that already has an item: documented to replace the pointer WITHOUT any reference
+    count change on the previous item, whose reference the client thereby inherits (and releases itself).  The new
+    item may be a descendant of the old one, held only through it."""
+    from .cborgen import hx as _hx
+    out = []
+    # new item = element of the old item, borrowed (own reference dropped before the call)
+    for enc in ([0xC1, 0x81, 0x01], [0xC1, 0x82, 0x41, 0x61, 0x02], [0xD8, 0x20, 0x9F, 0x61, 0x61, 0xFF], [0xC1, 0x81, 0x81, 0x01]):
+        out.append(_close(["load %s" % _hx(enc), "titem 0", "get 1 0", "dec 2", "dec 1", "tset 0 2", "ssize 0", "ser 0 24", "titem 0", "val 3", "dec 3",
+                           "dec 1", "ssize 0", "copy 0", "dec 0"]))
+        # same, the client keeps its own references across the call
+        out.append(_close(["load %s" % _hx(enc), "titem 0", "get 1 0", "tset 0 2", "ser 0 24", "dec 1", "dec 1", "ser 0 24"]))
+    # self-assignment and re-assignment of an unrelated item, on API-built tags
+    out.append(_close(["bi 0 8 7", "bt 1 0", "tset 1 0", "ser 1 8", "dec 0", "ser 1 8"]))            # same item twice: the tag holds two references, one inherited
+    out.append(_close(["bi 0 8 7", "bs 1 6162", "bt 1 0", "tset 2 1", "ser 2 8", "dec 0", "dec 0", "ser 2 8", "copy 2"]))
+    out.append(_close(["nia", "bi 0 8 1", "push 0 1", "bt 5 0", "get 0 0", "tset 2 3", "ser 2 8", "dec 0", "dec 0", "ser 2 8"]))
+    out.append(_close(["nt 3", "bi 0 8 1", "tset 0 1", "bi 0 8 2", "tset 0 2", "ser 0 8", "dec 1", "dec 1"]))
+    return out
+
+def load_use_cases(ctx):
+    """decode, then MODIFY the decoded tree through the public API, then serialize / copy / release: the decoder's
+    bookkeeping (capacities, counts, chunk tables, reference counts) must be what the mutators rely on"""
+    from .cborgen import hx as _hx, enumerated
+    rng = ctx.rng
+    out = []
+    inputs = [[0x80], [0x81, 0x01], [0x83, 0x01, 0x02, 0x03], [0x98, 0x18] + [0x00] * 24, [0x9F, 0xFF], [0x9F, 0x01, 0xFF], [0x9F, 0x01, 0x02, 0x03, 0xFF],
+              [0x9F] + [0x01] * 5 + [0xFF], [0x9F] + [0x61, 0x61] * 9 + [0xFF], [0x9F, 0x81, 0x01, 0xA1, 0x01, 0x02, 0x5F, 0x41, 0x00, 0xFF, 0xFF],
+              [0xA0], [0xA1, 0x01, 0x02], [0xA2, 0x01, 0x02, 0x03, 0x04], [0xBF, 0xFF], [0xBF, 0x01, 0x02, 0xFF], [0xBF] + [0x01, 0x02] * 3 + [0xFF], [0xBF] + [0x61, 0x61, 0xF6] * 5 + [0xFF],
+              [0x5F, 0xFF], [0x5F, 0x41, 0x00, 0xFF], [0x5F] + [0x41, 0x30] * 3 + [0xFF], [0x5F] + [0x42, 0x30, 0x31] * 5 + [0xFF], [0x7F, 0xFF], [0x7F, 0x61, 0x61, 0xFF], [0x7F] + [0x62, 0xC3, 0xA9] * 3 + [0xFF],
+              [0xC1, 0x01], [0xC1, 0x9F, 0x01, 0x02, 0x03, 0xFF], [0xD8, 0x18, 0xBF, 0x01, 0x02, 0xFF], [0x82, 0x9F, 0x01, 0x02, 0x03, 0xFF, 0xBF, 0x01, 0x02, 0x03, 0x04, 0x05, 0x06, 0xFF]]
+    for enc in inputs:
+        ib = enc[0]
+        mt = ib >> 5
+        ops = ["load %s" % _hx(enc), "bi 0 8 9", "bs 1 c3a9", "bs 0 7071"]     # h0 decoded, h1 int, h2 text, h3 bytes
+        if mt == 4:
+            ops += ["push 0 1", "push 0 2", "get 0 0", "set 0 1 3", "repl 0 0 1", "push 0 1", "push 0 1", "push 0 1", "get 0 3"]
+        elif mt == 5:
+            ops += ["madd 0 1 2", "madd 0 2 1", "madd 0 1 1", "madd 0 3 2", "madd 0 1 3"]
+        elif ib == 0x5F:
+            ops += ["chunk 0 3", "chunk 0 3", "chunk 0 3", "chunk 0 3", "chunk 0 3"]
+        elif ib == 0x7F:
+            ops += ["chunk 0 2", "chunk 0 2", "chunk 0 2", "chunk 0 2", "chunk 0 2"]
+        elif mt == 6:
+            child = enc[1] if ib < 0xD8 else enc[2]
+            ops += ["titem 0"] + (["push 4 1", "push 4 1"] if child >> 5 == 4 else ["madd 4 1 2", "madd 4 2 1"] if child >> 5 == 5 else ["val 4"]) + ["ssize 4"]
+        ops += ["ssize 0", "ser 0 64", "copy 0", "ssize %d" % (len([o for o in ops if o.split()[0] in ("load", "bi", "bs", "get", "titem")])), "salloc 0"]
+        out.append(_close(ops))
+    # nested: the container modified is an element / value of the decoded item
+    out.append(_close(["load 829f010203ffbf0102ff", "bi 0 8 9", "get 0 0", "push 2 1", "push 2 1", "get 0 1", "madd 3 1 1", "madd 3 1 1", "ser 0 64", "copy 0"]))
+    out.append(_close(["load a1019f0102ff", "bi 0 8 9", "copy 0", "ser 2 32"]))
+    return out
+
 def sethandle_cases(ctx):
     """client-provided buffers: new definite string, set_handle, shorten in place, use in containers, copy, release"""
     rng = ctx.rng
